@@ -7,4 +7,4 @@ CONSTANTS
   FE = 2
 SPECIFICATION PairSpec
 CHECK_DEADLOCK FALSE
-INVARIANTS StepMeaning PrefixOrder PrefixSeparate FloatInvolution FloatMonotone FloatEdges
+INVARIANTS StepMeaning PrefixOrder PrefixSeparate FloatInvolution FloatMonotone FloatDigits FloatEdges
